@@ -439,6 +439,41 @@ func leakTexts() []string {
 	return out
 }
 
+// contigLineTexts: the CONTIG field around the repair a4b3f5d (F38, was K7D): the accession ends at
+// the colon or at the END OF THE LINE, and the colon is required.  An accession over two lines was
+// accepted before (the colon of a later line ended it); a line without a colon is an unknown field
+// before and after (the difference was time).  Line ends LF, CRLF, CR; end of input at every place.
+func contigLineTexts() []string {
+	bodies := []string{
+		"CONTIG      join(U1:1..4)",               // the good one
+		"CONTIG      join(x",                      // no colon on the line (the family of the time oracle)
+		"CONTIG      join(",                       // empty accession, line end
+		"CONTIG      join(:1..4)",                 // empty accession, colon
+		"CONTIG      join(x:",                     // colon, then the line ends
+		"CONTIG      join(x:1..",                  // ... later
+		"CONTIG      join(x:1..4",                 // no closing parenthesis
+		"CONTIG      join(x:1..4) trailing",       // text behind the parenthesis
+		"CONTIG      join(a b\tc:1..4)",           // blanks and a tab inside the accession
+		"CONTIG      join(x\rU1:1..4)",            // a lone CR inside the accession
+		"CONTIG      join(x\nU1:1..4)",            // accession over two lines (accepted before a4b3f5d)
+		"CONTIG      join(x\n            y:1..4)", // ... the second one indented like a continuation
+		"CONTIG      join(x\nCONTIG      join(y:1..4)",
+		"CONTIG      join(x\nACCESSION   A:1..4)",
+		"CONTIG\nU1:1..4)", // the name alone
+	}
+	tails := []string{"", "\n", "\n//\n", "\nSOURCE      x\n  ORGANISM  y\n            z.\n//\n", "\nORIGIN      \n//\n"}
+	var out []string
+	for _, b := range bodies {
+		for _, t := range tails {
+			text := leakLocus + b + t
+			out = append(out, text, string(toCRLF([]byte(text))), strings.ReplaceAll(text, "\n", "\r"))
+			// behind a leaked frame of the feature table
+			out = append(out, leakHead("join(", 2, 1)+b+t)
+		}
+	}
+	return out
+}
+
 // leakCases sends every text to both sides.
 func leakCases(r *Run) {
 	reg := encRegistry(registry{})
@@ -446,5 +481,10 @@ func leakCases(r *Run) {
 		r.op("gb.read " + reg + " " + encStr(t))
 		out := r.op("gb.state " + reg + " " + encStr(t))
 		r.count("leak-then-rewind/" + strings.SplitN(out, " ", 2)[0])
+	}
+	for _, t := range contigLineTexts() {
+		r.op("gb.read " + reg + " " + encStr(t))
+		out := r.op("gb.state " + reg + " " + encStr(t))
+		r.count("contig-line/" + strings.SplitN(out, " ", 2)[0])
 	}
 }
